@@ -22,10 +22,10 @@ import (
 	api "k8s.io/api/core/v1"
 	networking "k8s.io/api/networking/v1"
 	metav1 "k8s.io/apimachinery/pkg/apis/meta/v1"
+	"sigs.k8s.io/controller-runtime/pkg/client"
 	gatewayv1 "sigs.k8s.io/gateway-api/apis/v1"
 	gatewayv1alpha2 "sigs.k8s.io/gateway-api/apis/v1alpha2"
 	gatewayv1beta1 "sigs.k8s.io/gateway-api/apis/v1beta1"
-	"sigs.k8s.io/controller-runtime/pkg/client"
 
 	ctrlconfig "github.com/jcmoraisjr/haproxy-ingress/pkg/controller/config"
 	"github.com/jcmoraisjr/haproxy-ingress/pkg/controller/reconciler"
@@ -182,7 +182,7 @@ func (s *coopSched) run() {
 // porcupine model -------------------------------------------------------------
 
 type c14In struct {
-	put  int   // event id (0 = take)
+	put  int // event id (0 = take)
 	take bool
 }
 type c14Out struct {
